@@ -91,6 +91,10 @@ type interpreter struct {
 	run                *run                   // current path (symbolic execution state)
 	eng                *Engine
 	lenient            bool // executing a package initialiser leniently
+	nativeMemo         map[nativeKey]*value
+	importing          bool
+	registry           map[*value]bool // cells of natively imported shared definitions
+	typeMemo           map[reflect.Type]types.Type
 }
 
 type deferred struct {
